@@ -61,7 +61,8 @@ class Run:
     # ---- user commands
     def submit(self, host="login"):
         self.w.ev(e="cmd", pid=0, host=host, argv=["jade", "submit-jobs"], nested=False)
-        return self.w.spawn(argv=["jade", "submit-jobs", self.cfgfile, "-o", self.w.out], host=host)
+        return self.w.spawn(argv=["jade", "submit-jobs", self.cfgfile, "-o", self.w.out], host=host,
+                            env={"VERIF_CPUS": str(self.scn.get("cpus", 4))})
 
     def user(self, *args, host="login"):
         self.w.ev(e="cmd", pid=0, host=host, argv=["jade"] + list(args[:1]), nested=False)
@@ -162,7 +163,8 @@ class Injector:
                     go = st is not None and world.steps >= pl["t"]
                 if go:
                     self.fired[i] = True
-                    self.run.user("try-submit-jobs", world.out, host="user")
+                    argv = pl.get("argv") or ["try-submit-jobs", "{out}"]
+                    self.run.user(*[a.replace("{out}", world.out) for a in argv], host=pl.get("host", "user"))
         free = [m for m in moves if not self._stalled(world, m)]
         if free:
             moves = free
@@ -192,7 +194,7 @@ class Injector:
         return mv
 
 
-def run_fault(scn, seed, plan=None, fault_mode=False, recover_rounds=None, debug=False, eager=0.0):
+def run_fault(scn, seed, plan=None, fault_mode=False, recover_rounds=None, debug=False, eager=0.0, after=()):
     """A seeded random run with (at most) one injected fault, followed by the documented recovery.
     With plan=None this is the baseline whose per-process operation lists enumerate the injection points."""
     r = Run(scn, seed, fault_mode=fault_mode, debug=debug)
@@ -214,6 +216,9 @@ def run_fault(scn, seed, plan=None, fault_mode=False, recover_rounds=None, debug
         if eager:
             chooser = EagerUser(r, chooser, prob=eager)
         r.drain(chooser)
+        for argv in after:     # further user commands, each issued when everything has gone quiet
+            r.user(*[a.replace("{out}", r.w.out) for a in argv], host="login")
+            r.drain(chooser)
         if not any(g.get("dry") for g in scn["groups"]):
             # with max_nodes=1 a node's own round can never submit (its batch still counts): one user round per batch
             r.recover(max_rounds=recover_rounds or len(scn["jobs"]) + 3, chooser=chooser, how="try-submit-jobs")
